@@ -397,6 +397,9 @@ impl Gen {
         ctxs.push(1);
         ctxs.push(1);
         ctxs.push(2);
+        if stat && self.rng.chance(1, 8) {
+            return self.attr_arg_site(r, e);
+        }
         if stat && self.has_conc(r) && self.rng.chance(1, 3) {
             const STATIC_CONC: &[&str] = &[
                 "sel_choice", "generic_map_actual", "generate_range", "if_generate_cond", "case_generate_expr", "block_generic_map",
@@ -741,6 +744,64 @@ impl Gen {
     }
     fn allows_signals_ent_is_signal(&self, _o: usize) -> bool {
         false
+    }
+
+    /// argument of a predefined array attribute (F69, fixed by aa4b907): m'length(X), m'range(X), m'reverse_range(X), m'ascending(X)
+    fn attr_arg_site(&mut self, r: usize, e: &dyn Fn(&Gen, &str) -> String) -> bool {
+        let owner0 = self.regions[r].owner;
+        let owner = if owner0 == usize::MAX { None } else { Some(owner0) };
+        let el = self.elig_in(r);
+        let ind = if matches!(self.regions[r].kind, Rk::Process | Rk::Subprog) { "    " } else { "  " };
+        let mt = self.ent("m2t", "type", owner, None, el);
+        let m = self.ent("m2", "obj", owner, None, el);
+        let txt = format!(
+            "{i}type {} is array (0 to 1, 0 to 2) of integer;\n{i}constant {} : {} := (others => (others => 0));\n",
+            self.d(mt),
+            self.d(m),
+            self.r(mt, "subtype_mark_constant"),
+            i = ind
+        );
+        self.decl(r, txt);
+        let form = *self.rng.pick(&["length", "ascending", "range_loop", "reverse_range_loop", "range_subtype_index", "range_aggregate_choice", "range_subtype_range", "range_slice"]);
+        let site = format!("attribute_argument_{}", form);
+        let x = e(self, &site);
+        let mr = self.r(m, "attr_prefix_object");
+        match form {
+            "range_loop" | "reverse_range_loop" | "range_slice" => {
+                let attr = if form == "reverse_range_loop" { "reverse_range" } else { "range" };
+                let slice = form == "range_slice";
+                let hv = if slice {
+                    let v = self.ent("hbv", "obj", owner, None, el);
+                    let t = format!("{}constant {} : bit_vector(7 downto 0) := (others => '0');\n", ind, self.d(v));
+                    self.decl(r, t);
+                    Some(v)
+                } else {
+                    None
+                };
+                let mk = move |g: &mut Gen, _pr: usize, kv: usize| -> String {
+                    if let Some(v) = hv {
+                        format!("    {} := {}({}'{}({}))'length;\n", g.r(kv, "sink_target"), g.r(v, "slice_prefix"), mr, attr, x)
+                    } else {
+                        let j = g.ent("j", "loop", None, None, false);
+                        format!("    for {} in {}'{}({}) loop\n      null;\n    end loop;\n", g.d(j), mr, attr, x)
+                    }
+                };
+                self.seq_place(r, &mk);
+            }
+            _ => {
+                let c = self.ent("ac", if form == "range_subtype_range" { "type" } else { "obj" }, owner, None, el);
+                let t = match form {
+                    "length" => format!("{}constant {} : integer := {}'length({});\n", ind, self.d(c), mr, x),
+                    "ascending" => format!("{}constant {} : boolean := {}'ascending({});\n", ind, self.d(c), mr, x),
+                    "range_subtype_index" => format!("{}constant {} : bit_vector({}'range({})) := (others => '0');\n", ind, self.d(c), mr, x),
+                    "range_aggregate_choice" => format!("{}constant {} : bit_vector(0 to 7) := ({}'range({}) => '1', others => '0');\n", ind, self.d(c), mr, x),
+                    _ => format!("{}subtype {} is integer range {}'range({});\n", ind, self.d(c), mr, x),
+                };
+                self.decl(r, t);
+            }
+        }
+        self.site_stats.push(site);
+        true
     }
 
     /// array-of-array types with unconstrained elements and a record with an unconstrained element (once per region)
